@@ -60,6 +60,7 @@ type Unit struct {
 	poolCase    string
 	inCallee    bool
 	variant     *Clause
+	inlineDepth int
 }
 
 type Exit struct {
